@@ -373,7 +373,9 @@ public:
                 = down_cast<const Pow &>(*(*subs_dict_.begin()).first);
             if (eq(*subs_first.get_base(), *base_new)) {
                 auto newexpo = div(exp_new, subs_first.get_exp());
-                if (is_a_Number(*newexpo) or is_a<Constant>(*newexpo)) {
+                // b**e == (b**k)**(e/k) only holds in general for an integer
+                // ratio: x**-1 is not (x**2)**(-1/2) for negative x
+                if (is_a<Integer>(*newexpo)) {
                     result_ = pow((*subs_dict_.begin()).second, newexpo);
                     return;
                 }
